@@ -22,6 +22,7 @@ class RecObj:
     bound = dict(bound)
     bound.pop('self', None)
     bound.pop('__class__', None)
+    _r.note_kwargs_order(bound)
     object.__setattr__(self, 'vt_bound', bound)
     object.__setattr__(self, 'vt_serial', next(_r._serial))
     for h in _r._on_call_hooks:
